@@ -124,6 +124,23 @@ def derive_read(rng, exons, kind, delta):
     elif kind == "intron_retention" and n >= 2:
         i = rng.randint(0, n - 2)
         ex = ex[:i] + [(ex[i][0], ex[i + 1][1])] + ex[i + 2:]
+    elif kind == "partial_intron_retention" and n >= 2:
+        # the read starts (ends) deep inside an annotated intron: its terminal block is the exon plus >= 100 retained intronic bases
+        lo = rng.randint(0, n - 2)
+        hi = rng.randint(lo + 1, n - 1)
+        if rng.random() < .5:
+            lo += 1
+            gap = ex[lo][0] - ex[lo - 1][1] - 1
+            if gap < 140:
+                return None
+            ex = ex[lo:hi + 1]
+            ex[0] = (ex[0][0] - rng.randint(100, min(gap - 30, 600)), ex[0][1])
+        else:
+            gap = ex[hi][0] - ex[hi - 1][1] - 1
+            if gap < 140:
+                return None
+            ex = ex[lo:hi]
+            ex[-1] = (ex[-1][0], ex[-1][1] + rng.randint(100, min(gap - 30, 600)))
     elif kind == "intron_shift" and n >= 3:
         i = rng.randint(1, n - 2)
         sh = rng.choice([-1, 1]) * rng.randint(delta + 1, delta + 12)
@@ -142,7 +159,7 @@ def derive_read(rng, exons, kind, delta):
 
 
 READ_KINDS = ["exact", "truncated", "jitter", "terminal_left_misaligned", "terminal_right_misaligned", "terminal_both_misaligned",
-              "skipped_exon", "fake_terminal_exon", "intron_retention", "intron_shift", "novel_exon"]
+              "skipped_exon", "fake_terminal_exon", "intron_retention", "intron_shift", "novel_exon", "partial_intron_retention"]
 
 
 def assign(gene_info, params, read_exons, polya=(-1, -1, -1, -1)):
